@@ -7,7 +7,7 @@ from ..cfg import cfg_of
 from ..guards import Env, walk
 from ..report import Report
 from ..normalize import alias_view
-from ..util import helper_scopes, inline_temps, callee_last, parents, enclosing_stmt, depends_on
+from ..util import bind_args, helper_scopes, inline_temps, callee_last, parents, enclosing_stmt, depends_on
 
 FM = 'fggs.formats'
 
@@ -131,6 +131,45 @@ def discriminators(rep: Report, prog: Program) -> None:
         ok = bool(ctor) and read == others
         rep.ob(rule, tj.fq(), f"{c.name}.to_json writes {dk!r}: {lit!r} with keys {sorted(others)}", tj.loc(), ok,
                f"reader branch constructs {c.name}: {bool(ctor)}; keys read in the branch {sorted(read)}")
+    # what is written under a key is the state the constructor stored from the argument the reader passes for that key
+    # (`'values': list(self.values)`), not a structure derived from it (an index dict collapses equal values)
+    n_src = 0
+    for c, tj, dk, lit, others in writers:
+        init = prog.find_method(c, '__init__')
+        ret = [n.value for n in own_nodes(tj.node) if isinstance(n, ast.Return)][0]
+        selfw = tj.self_name()
+        if init is None:
+            continue
+        selfi = init.self_name()
+        for k, v in zip(ret.keys, ret.values):
+            if not isinstance(k, ast.Constant) or k.value == dk:
+                continue
+            p = k.value if k.value in init.param_names() else None
+            if p is None:
+                # the reader's call tells which parameter receives d[k]
+                branch = [n for n, kk, l in tests if kk == dk and l == lit]
+                for call in [x for b in branch for s_ in b.body for x in ast.walk(s_) if isinstance(x, ast.Call) and callee_last(x) == c.name]:
+                    for prm, arg in bind_args(call, init, False).items():
+                        if any(isinstance(x, ast.Subscript) and isinstance(x.slice, ast.Constant) and x.slice.value == k.value for x in ast.walk(arg)):
+                            p = prm
+            if p is None:
+                continue
+            primary = set()
+            for a_ in own_nodes(init.node):
+                if isinstance(a_, (ast.Assign, ast.AnnAssign)) and a_.value is not None and p in names_in(a_.value):
+                    for t in (a_.targets if isinstance(a_, ast.Assign) else [a_.target]):
+                        if isinstance(t, ast.Attribute) and isinstance(t.value, ast.Name) and t.value.id == selfi:
+                            primary.add(t.attr)
+            if not primary:
+                continue
+            n_src += 1
+            accept = primary | {'_' + x for x in primary} | {x.lstrip('_') for x in primary}
+            reads = {x.attr for x in ast.walk(v) if isinstance(x, ast.Attribute) and isinstance(x.value, ast.Name) and x.value.id == selfw}
+            ok = bool(reads & accept)
+            rep.ob('C14-D1 written-state', tj.fq(), f"{c.name}.to_json[{k.value!r}] = {norm(v)[:60]}", tj.loc(v), ok,
+                   f"reads the attribute __init__ stores from `{p}` ({sorted(primary)})" if ok else
+                   f"reads {sorted(reads)}, none of which __init__ stores from `{p}` (that is {sorted(primary)}): what is written is a derived structure, not what the reader's {c.name}(...) call was given")
+    rep.floor('C14-D1 written-state', n_src, 4)
     wl = {(dk, lit) for _, _, dk, lit, _ in writers}
     for n, k, l in tests:
         ok = (k, l) in wl
